@@ -1162,7 +1162,56 @@ def synthetic_pdf(content_mod, img_len, alt_len, algorithm=None, user="", owner=
     return out.getvalue()
 
 
-def pdf_boundary_cases(ctx, e2e):
+def pdf_step_cases(ctx, cases, info, data, tag):
+    """_open_pdf_reader + the password test against the Coq model pdf_decide, from a fresh library state and
+    from a state in which an earlier document already installed the AES fallback."""
+    from pypdf import PdfReader
+    from pypdf.errors import DependencyError
+    import pypdf._crypt_providers as providers
+    import pypdf._crypt_providers._fallback as fb
+    from sharepoint2text.parsing.extractors.pdf import _pypdf_aes_fallback as fbk
+    from sharepoint2text.parsing.extractors.pdf.pdf_extractor import read_pdf
+    restore_pristine_pypdf()
+    try:
+        PdfReader(io.BytesIO(data))
+        ctor = False
+    except DependencyError as e:
+        ctor = "AES algorithm" in str(e)
+    except Exception:  # noqa
+        return
+    on_fb = providers.crypt_provider[0] == "local_crypt_fallback"
+    fbk.patch_pypdf_fallback_aes()
+    try:
+        r = PdfReader(io.BytesIO(data))
+        is_enc = bool(r.is_encrypted)
+        try:
+            dec = f"(DecReturns {int(r.decrypt(''))})" if is_enc else "(DecReturns 0)"
+        except Exception:  # noqa
+            dec = "DecRaises"
+    except Exception:  # noqa
+        restore_pristine_pypdf()
+        return
+    env = (f"{{| ctor_needs_aes := {coq_bool(ctor)}; on_fallback := {coq_bool(on_fb)}; "
+           f"pe_view := {{| p_is_encrypted := {coq_bool(is_enc)}; p_decrypt_empty := {dec} |}} |}}")
+    for installed0 in (False, True):
+        restore_pristine_pypdf()
+        if installed0:
+            fbk.patch_pypdf_fallback_aes()
+        o = run_gen(read_pdf, data, path="x.pdf")
+        installed = fb.aes_cbc_decrypt is fbk.aes_cbc_decrypt
+        code = 1 if o.enc else (0 if "cryptography" in o.msg or "DependencyError" in o.msg else 2)
+        if o.cls == "ExtractionFailedError" and not installed and is_enc:
+            code = 0 if ctor else 2
+        cases.append(f"CPdfStep {env} {coq_bool(installed0)} {code} {coq_bool(installed)}")
+        info.append(("pdf-step", tag, f"installed0={installed0}", f"{o!r} installed={installed}"))
+        ctx.case(("pdf-step", tag, installed0), True, kind=f"pdf-step:{'fresh' if not installed0 else 'after-earlier-aes-document'}")
+        if is_enc and on_fb and o.cls is None and not installed:
+            ctx.finding(f"pdf-aes-not-installed:{tag}", f"encrypted PDF ({tag}) was read to the end without the AES fallback installed "
+                        f"(installed before: {installed0})", {"input": data})
+    restore_pristine_pypdf()
+
+
+def pdf_boundary_cases(ctx, e2e, cases=None, info=None):
     """Empty-user-password twins of synthetic PDFs: the lengths of the content stream, the image stream and the
     /Alt string sweep the residues mod 16 (quick: all 16 residues jointly for AES-128, a sample for the other
     algorithms and for independent residues; thorough: all residues for every algorithm)."""
@@ -1210,6 +1259,10 @@ def pdf_boundary_cases(ctx, e2e):
             err = None
         except Exception as e:  # noqa
             got, err = None, f"{type(e).__name__}: {e}"
+        if cases is not None and alg != "AES-256":
+            pdf_step_cases(ctx, cases, info, data, f"{alg}:content%16={cmod}")
+            if (cmod, ilen, alen) == plans[0][1:]:
+                pdf_step_cases(ctx, cases, info, plain, "plain")
         if alg == "AES-256":
             r6_spent += _time.time() - _t0
             r6_done += 1
@@ -1407,6 +1460,9 @@ def run(ctx):
         "oracles (inputs of the models, recorded from the real library in the correspondence): olefile (isOleFile, directory, "
         "streams), zipfile (infolist, flag_bits, is_dir, read's exception class), ElementTree parsing, pypdf (is_encrypted, "
         "decrypt('')), the 7z header parser (the view is the writer's own header description), per-member extraction in archives",
+        "7z from the bytes (C08/Props7z.v): the byte-level header parser and the 7z path of read_archive are C10's model "
+        "(C10/Parse.v, C10/Ser.v), tied to the code by C10's correspondence; C08 proves its statement over that model and "
+        "keeps its own decision-level correspondence (C7z cases)",
         "harness writers tools/props/c08_writers.py (CFB, 7z, ZIP patching, OLE surgery, independent AES for writing PDFs)",
     ]
     ctx.assumptions += ["str.lower is modelled for ASCII stream names only in the correspondence (theorems are parametric in lower)",
@@ -1426,7 +1482,10 @@ def run(ctx):
         "C08_7z_needs_password_iff", "C08_7z_sound", "C08_7z_complete", "C08_epub_iff", "C08_pdf_iff", "C08_reject_before_yield",
         "C08_pkcs7_roundtrip", "C08_pkcs7_full_block", "C08_pkcs7_padded_length", "C08_pkcs7_rejects_bad_byte",
         "C08_ppt_token_sound_refuted", "C08_ppt_sound_partial", "C08_ppt_token_aware_iff", "C08_reject_never_silent",
-        "C08_attachment_encrypted_any_position", "C08_attachment_complete"])
+        "C08_attachment_encrypted_any_position", "C08_attachment_complete",
+        "C08_pdf_aes_installed_before_pages", "C08_pdf_aes_legacy_refuted", "C08_pdf_decision_history_free"])
+    ctx.prove("C08/Props7z.v", ["C08/SevenZ.vo", "Gen/C10Tables.vo"], expected=[
+        "C08_7z_decision_from_bytes", "C08_7z_encoded_header_from_bytes", "C08_7z_tables_premise"])
     ctx.prove("C08/Inst.v", ["Gen/C08Skeletons.vo", "Gen/C08Tables.vo", "C08/Flow.vo", "C08/Model.vo", "C08/Corr.vo"], expected=[
         "C08_all_guarded", "C08_no_result_before_rejection", "C08_skeleton_count", "C08_constants",
         "C08_zip_pass1_delivers_nothing", "C08_zip_prefix_has_the_guard", "C08_rejected_never_silent"])
@@ -1442,7 +1501,7 @@ def run(ctx):
                       ("zip", lambda: zip_cases(ctx, cases, info, e2e)), ("7z", lambda: sevenz_cases(ctx, cases, info, e2e)),
                       ("epub", lambda: epub_cases(ctx, cases, info, e2e)), ("pdf", lambda: pdf_cases(ctx, cases, info, e2e)),
                       ("pkcs7+cbc", lambda: pkcs7_cases(ctx, cases, info)), ("attachments", lambda: attachment_cases(ctx, cases, info)),
-                      ("env-sweep", lambda: env_cases(ctx, e2e)), ("pdf-boundary", lambda: pdf_boundary_cases(ctx, e2e))):
+                      ("env-sweep", lambda: env_cases(ctx, e2e)), ("pdf-boundary", lambda: pdf_boundary_cases(ctx, e2e, cases, info))):
             t0 = time.time()
             f()
             timing[nm] = round(time.time() - t0, 1)
